@@ -91,13 +91,14 @@ type World struct {
 
 // ReqState is the real-side state of one in-flight request.
 type ReqState struct {
-	ID    string
-	Tr    *Trace
-	Rec   *RecWriter
-	NoAbt bool
-	Req   *http.Request
-	Ctx   *rux.Context // the context the first handler saw (pointer identity = pool reuse)
-	First func(c *rux.Context)
+	ID       string
+	Tr       *Trace
+	Rec      *RecWriter
+	NoAbt    bool
+	Req      *http.Request
+	Ctx      *rux.Context // the context the first handler saw (pointer identity = pool reuse)
+	First    func(c *rux.Context)
+	jobsDone bool // the background jobs of the kept copies have recorded their results
 
 	Nested bool // this is a nested request issued by a handler
 
@@ -131,8 +132,15 @@ func (st *ReqState) FreezeCopies() {
 	defer st.cmu.Unlock()
 	st.copyBase = st.copyBase[:0]
 	for _, c := range st.Copies {
+		// the background job the copy was made for finishes after the request and records its own result in ITS
+		// context: nothing of that may reach the requests served later (and nothing of theirs may reach the copy)
+		if !st.jobsDone {
+			c.AddError(fmt.Errorf("background job of %s failed", st.ID))
+			c.Set("job-of", st.ID)
+		}
 		st.copyBase = append(st.copyBase, CopyText(c))
 	}
+	st.jobsDone = true
 }
 
 // CheckCopies verifies that the copies still hold what they held when their request ended.
